@@ -158,6 +158,7 @@ func (m *UnboundedSegmentedMailbox) Enqueue(value *ReceiveContext) error {
 			newSeg := newSegment()
 			// try to become the appender
 			if tail.next.CompareAndSwap(nil, newSeg) {
+				verifhook.At("seg.enq.castail", m, 0, 0)
 				m.tail.CompareAndSwap(tail, newSeg)
 			}
 		} else {
